@@ -48,6 +48,10 @@ BOUNDS = {
             "bitflip": {"arml": 8},
         },
         "cube": g.cube_dims({"word16": {"ext": 1, "stride": 256}}, ["mepb"]),
+        # REP / REPE / REPNE / LOCK x 66 x 67 (x REX.W) in front of every string instruction and of the lockable
+        # read-modify-write opcodes with a memory operand, all three modes
+        "x86stack": dict((n, {"seg": 1, "opsz": 2, "adsz": 2, "mand": 4, "rex": 2, "ops": ("string", "lock"),
+                              "modrm": 1}) for n in ("x86_16", "x86_32", "x86_64")),
         "shard": 128, "bundles": 32,
     },
     "thorough": {
@@ -63,6 +67,8 @@ BOUNDS = {
                                     "msp430": {"ext": 1, "stride": 64},
                                     "sh4": {"ext": 1, "stride": 64}},
                                    ["arml", "armtl", "aarch64l", "mips32b", "ppc32b", "msp430", "sh4"])),
+        "x86stack": dict((n, {"seg": 3, "opsz": 2, "adsz": 2, "mand": 4, "rex": 2, "ops": ("string", "lock", "sse"),
+                              "modrm": 2}) for n in ("x86_16", "x86_32", "x86_64")),
         "shard": 128, "bundles": 160,
     },
 }
